@@ -413,6 +413,24 @@ Proof.
   unfold upd. apply st_plus_zero_l.
 Qed.
 
+
+(* hist_spec spelled out: the count of the traces whose (bin, class) tag is (b, k) *)
+Theorem hist_correct_explicit (edges : list Qc) (est : Qc -> nat) (parts : list Z) :
+  (2 <= length edges)%nat -> increasing edges ->
+  forall (rows : list row) (b k : nat),
+  get (hist_bsum edges est parts rows) b k
+  = Z.of_nat (length (filter (fun r => match bin_spec edges (fst r), class_of parts (snd r) with
+                                       | Some b', Some k' => Nat.eqb b' b && Nat.eqb k' k
+                                       | _, _ => false
+                                       end) rows)).
+Proof.
+  intros Hlen Hinc rows b k. rewrite (hist_correct_thm edges est parts Hlen Hinc).
+  unfold hist_spec, count_tags. f_equal. induction rows as [|r rows IH]; [reflexivity|].
+  cbn [map filter]. unfold tag_hits at 1, row_tag at 1.
+  destruct (bin_spec edges (fst r)) as [b'|]; [destruct (class_of parts (snd r)) as [k'|]|]; try exact IH.
+  destruct (Nat.eqb b' b && Nat.eqb k' k); cbn [length]; rewrite IH; reflexivity.
+Qed.
+
 (* ========================================================================================== sums *)
 Lemma qsum_map_scale_r {A} (c : Qc) (f : A -> Qc) l : qsum (map (fun x => f x * c) l) = qsum (map f l) * c.
 Proof. induction l as [|x l IH]; cbn [map]; rewrite ?qsum_nil, ?qsum_cons, ?IH; ring. Qed.
@@ -655,6 +673,26 @@ Section MiQ.
     rewrite H0. ring.
   Qed.
 End MiQ.
+
+
+Theorem empty_cells_irrelevant_thm (phi : Qc -> Qc) (t : st) :
+  (forall bs1 b0 bs2 vs, bin_empty t vs b0 = true ->
+     q_mi_code phi t (bs1 ++ b0 :: bs2) vs = q_mi_code phi t (bs1 ++ bs2) vs)
+  /\ (forall bs vs1 v0 vs2, class_empty t bs v0 = true ->
+     q_mi_code phi t bs (vs1 ++ v0 :: vs2) = q_mi_code phi t bs (vs1 ++ vs2)).
+Proof. split; [exact (empty_bin_irrelevant phi t)|exact (empty_class_irrelevant phi t)]. Qed.
+
+Theorem mi_populated_cells_only (phi : Qc -> Qc) (t : st) (bs vs : list nat) :
+  q_mi_code phi t bs vs
+  = q_mi_code phi t (filter (fun b => negb (bin_empty t vs b)) bs)
+                    (filter (fun v => negb (class_empty t (filter (fun b => negb (bin_empty t vs b)) bs) v)) vs).
+Proof. rewrite (mi_nonempty_bins phi t bs vs) at 1. apply mi_nonempty_classes. Qed.
+
+Theorem entropies_ignore_empty_bins_thm (phi : Qc -> Qc) (t : st) bs1 b0 bs2 vs :
+  phi 0 = 0 -> bin_empty t vs b0 = true ->
+  q_HB phi t (bs1 ++ b0 :: bs2) vs = q_HB phi t (bs1 ++ bs2) vs
+  /\ q_HBV phi t (bs1 ++ b0 :: bs2) vs = q_HBV phi t (bs1 ++ bs2) vs.
+Proof. intros H0 He. split; [apply HB_ignores_empty_bin|apply HBV_ignores_empty_bin]; assumption. Qed.
 
 (* ========================================================================================== bin_edges setter *)
 Definition width (l : list Qc) (i : nat) : Qc := edge l (S i) - edge l i.
